@@ -27,7 +27,10 @@ package ledger
 //   queue batches (rounds s..s+k-1 persisted at once => a single committedUpTo, commit ranges
 //   that overshoot catchpoint rounds; k in {3,7} quick, {2,3,5,7,10} thorough, every s, two
 //   schedules), catchpoint tracking switched on at the restart (node ran untracked before; the
-//   trie is rebuilt from the tables; every restart round, three schedules), MaxAcctLookback 2
+//   trie is rebuilt from the tables; every restart round, three schedules), crash right after
+//   the tracker DB transaction of a commit + restart (postCommit / postCommitUnlocked never run;
+//   after every round >= 5, preceded by 0 / 3 / 6 rounds without any commit so that the crashed
+//   commit range overshoots first-stage and catchpoint rounds), MaxAcctLookback 2
 //   (1,2,8 thorough), LRU caches enabled (config default; the product runs
 //   with DisableLedgerLRUCache because allocating the 100k-entry cache buffers at every open
 //   dominates the run time), file backed databases with close+OpenLedger as restart.
@@ -49,7 +52,8 @@ package ledger
 // of labels produced, restarted?) tuples reached; transitions: executed AddBlock / restart
 // operations; traces: runs.
 //
-// Not covered: crash points inside a commit (C09's subject), consensus upgrades inside a
+// Not covered: crash points other than "after the commit transaction, before postCommit" (C09's
+// subject), consensus upgrades inside a
 // history, catchpoint intervals other than 4, histories longer than 24 rounds.
 //
 // Mutants (bin/mut C14 ...), quick tier:
@@ -86,6 +90,8 @@ type c14Job struct {
 	reopen  bool
 	burstAt int
 	burstN  int
+	crash   bool
+	lag     int
 	node    c14NodeCfg
 	cfgName string
 }
@@ -99,7 +105,7 @@ func (j *c14Job) describe(hs []*c14History) map[string]any {
 			sb.WriteByte('0')
 		}
 	}
-	return map[string]any{"engine": "c14", "history": hs[j.hist].Name, "schedule": j.sched, "flush_bits": sb.String(), "restart_after": j.restart, "burst_start": j.burstAt, "burst_len": j.burstN,
+	return map[string]any{"engine": "c14", "history": hs[j.hist].Name, "schedule": j.sched, "flush_bits": sb.String(), "restart_after": j.restart, "burst_start": j.burstAt, "burst_len": j.burstN, "crash_after_db_commit": j.crash, "crash_lag": j.lag,
 		"reopen": j.reopen, "late_enable": j.node.LateEnable, "max_acct_lookback": j.node.MaxAcctLookback, "stored": j.node.Stored, "in_mem": j.node.InMem, "no_lru": j.node.NoLRU, "trie_config": j.cfgName}
 }
 
@@ -234,7 +240,7 @@ func TestVerif_C14(t *testing.T) {
 				results[i].err = fmt.Errorf("OpenLedger: %v", err)
 				return
 			}
-			o, err := c14RunTraced(n, h, c14Plan{Flush: j.flush, RestartAt: j.restart, Reopen: j.reopen, BurstStart: j.burstAt, BurstLen: j.burstN}, &results[i].states)
+			o, err := c14RunTraced(n, h, c14Plan{Flush: j.flush, RestartAt: j.restart, Reopen: j.reopen, BurstStart: j.burstAt, BurstLen: j.burstN, Crash: j.crash, CrashLag: j.lag}, &results[i].states)
 			results[i].obs, results[i].err, results[i].ops = o, err, n.ops
 			n.close()
 			if !j.node.InMem {
@@ -388,6 +394,15 @@ func TestVerif_C14(t *testing.T) {
 						for _, si := range []int{0, 1} {
 							jobs = append(jobs, c14Job{hist: hi, sched: schedNames[si], flush: scheds[si], burstAt: st, burstN: k, cfgName: tc.name, node: c14NodeCfg{Stored: (st+k)%2 == 0, InMem: true, NoLRU: true}})
 						}
+					}
+				}
+				// crash right after the tracker DB transaction of a commit (no postCommit), restart:
+				// the catchpoint tracker finishes first stages / catchpoints from its DB records.
+				// lag = number of rounds without any commit before the crashed commit.
+				for _, lag := range ve.Pick([]int{0, 3, 6}, []int{0, 2, 3, 4, 6, 9}) {
+					for rs := 5 + lag; rs <= rounds-3; rs++ {
+						si := (rs + lag) % 2
+						jobs = append(jobs, c14Job{hist: hi, sched: schedNames[si], flush: scheds[si], restart: rs, crash: true, lag: lag, cfgName: tc.name, node: c14NodeCfg{Stored: (rs+lag)%3 != 0, InMem: true, NoLRU: true}})
 					}
 				}
 				// catchpoint tracking enabled at the restart (trie rebuilt from the tables)
